@@ -532,6 +532,15 @@ func (k Keeper) TriggerEsm(ctx sdk.Context, auctionData types.Auction, liquidati
 
 }
 
+// autoBidDebtAmount returns the debt token amount a placed bid actually took.
+func (k Keeper) autoBidDebtAmount(ctx sdk.Context, biddingID uint64) (sdk.Int, error) {
+	userBid, err := k.GetUserBid(ctx, biddingID)
+	if err != nil {
+		return sdk.Int{}, err
+	}
+	return userBid.DebtTokenAmount.Amount, nil
+}
+
 func (k Keeper) LimitOrderBid(ctx sdk.Context) error {
 	// Get Auctions One by One and for that particular auction check the current discount
 	// if we find any active limit bid for that premium then we will execute it and update both
@@ -563,18 +572,24 @@ func (k Keeper) LimitOrderBid(ctx sdk.Context) error {
 						if err != nil {
 							return err
 						}
-						if individualBids.DebtToken.Amount.Equal(auction.DebtToken.Amount) {
+						// the bid is cut when the collateral runs out (the app reserve covers the rest):
+						// charge the deposit with what the bid actually took
+						paidAmount, err := k.autoBidDebtAmount(ctx, biddingId)
+						if err != nil {
+							return err
+						}
+						if individualBids.DebtToken.Amount.Equal(paidAmount) {
 							k.DeleteUserLimitBidData(ctx, auction.DebtAssetId, auction.CollateralAssetId, premiumPerc.TruncateInt(), individualBids.BidderAddress)
 
 							k.UpdateUserLimitBidDataForAddress(ctx, individualBids, false)
 							return nil
 						}
-						individualBids.DebtToken.Amount = individualBids.DebtToken.Amount.Sub(auction.DebtToken.Amount)
+						individualBids.DebtToken.Amount = individualBids.DebtToken.Amount.Sub(paidAmount)
 						individualBids.BiddingId = append(individualBids.BiddingId, biddingId)
 						k.SetUserLimitBidData(ctx, individualBids, auction.DebtAssetId, auction.CollateralAssetId, premiumPerc.TruncateInt())
-						// subtract auction.DebtToken.Amount from protocol data
+						// subtract the paid amount from protocol data
 						protocolData, _ := k.GetLimitBidProtocolDataByAssetID(ctx, auction.DebtAssetId, auction.CollateralAssetId)
-						protocolData.BidValue = protocolData.BidValue.Sub(auction.DebtToken.Amount)
+						protocolData.BidValue = protocolData.BidValue.Sub(paidAmount)
 						err = k.SetLimitBidProtocolData(ctx, protocolData)
 						if err != nil {
 							return err
@@ -584,7 +599,23 @@ func (k Keeper) LimitOrderBid(ctx sdk.Context) error {
 						if err != nil {
 							return err
 						}
-						debtAmount := individualBids.DebtToken.Amount
+						debtAmount, err := k.autoBidDebtAmount(ctx, biddingId)
+						if err != nil {
+							return err
+						}
+						if debtAmount.LT(individualBids.DebtToken.Amount) {
+							// the bid was cut because the collateral ran out: the rest of the deposit stays
+							individualBids.DebtToken.Amount = individualBids.DebtToken.Amount.Sub(debtAmount)
+							individualBids.BiddingId = append(individualBids.BiddingId, biddingId)
+							k.SetUserLimitBidData(ctx, individualBids, auction.DebtAssetId, auction.CollateralAssetId, premiumPerc.TruncateInt())
+							protocolData, _ := k.GetLimitBidProtocolDataByAssetID(ctx, auction.DebtAssetId, auction.CollateralAssetId)
+							protocolData.BidValue = protocolData.BidValue.Sub(debtAmount)
+							err = k.SetLimitBidProtocolData(ctx, protocolData)
+							if err != nil {
+								return err
+							}
+							continue
+						}
 						individualBids.DebtToken.Amount = sdk.ZeroInt()
 						individualBids.BiddingId = append(individualBids.BiddingId, biddingId)
 						k.SetUserLimitBidData(ctx, individualBids, auction.DebtAssetId, auction.CollateralAssetId, premiumPerc.TruncateInt())
